@@ -241,6 +241,84 @@ def run_lin(ctx: Ctx, w: World, drv: LeanDriver) -> None:
     ctx.notes[f"lin_schedules_{w.kind}"] = total
 
 
+def claim_with_a_failed_lock(ctx: Ctx, w: World, drv: LeanDriver) -> None:
+    """SQLite: the write lock of a request cannot be had (`BEGIN IMMEDIATE` answers "database is locked" after pynenc's own retries -
+    another process holds the database for long).  Whatever the request does about it, the requests of the two runners must still be
+    explained by one sequential order; a request that FAILED with the lock error counts as not made."""
+    from pynenc.invocation.status import InvocationStatus as S
+
+    total = bad = 0
+    start = (S.REGISTERED, None)
+    tops = [[(S.PENDING, "rA")], [(S.PENDING, "rB")]]
+
+    def run_one(chooser):
+        w.reset()
+        inv = w.task(1).invocation_id
+        inject_status(w.app, inv, start[0], start[1], 0)
+        out: dict = {}
+        fired = {"n": 0}
+
+        def fault(idx: int, sql: str) -> bool:
+            if idx == 0 and fired["n"] == 0 and sql.lstrip().upper().startswith("BEGIN"):
+                fired["n"] += 1
+                return True
+            return False
+
+        def body(t: int) -> Callable[[], None]:
+            def f() -> None:
+                for k, (st, rid) in enumerate(tops[t]):
+                    try:
+                        w.app.orchestrator.set_invocation_status(inv, st, rctx(rid))
+                        out[(t, k)] = "ok"
+                    except BaseException as e:  # noqa: BLE001
+                        out[(t, k)] = _classify(e)
+            return f
+
+        w.sched.lock_fault = fault  # type: ignore[attr-defined]
+        try:
+            run = w.sched.run([body(0), body(1)], chooser)
+        finally:
+            w.sched.lock_fault = None  # type: ignore[attr-defined]
+        run.meta = (inv, out, w.status(inv), w.history(inv), fired["n"])  # type: ignore[attr-defined]
+        return run
+
+    def directed():
+        n0 = len(run_one(PrefixChooser([0] * 5000)).choices)
+        for k in range(n0 + 1):
+            yield run_one(PrefixChooser([0] * k + [1] * 5000))
+        n1 = len(run_one(PrefixChooser([1] * 5000)).choices)
+        for k in range(0, n1 + 1):
+            yield run_one(PrefixChooser([1] * k + [0] * 5000))
+
+    for run in directed():
+        total += 1
+        ctx.count()
+        inv, out, final, hist, fired = run.meta  # type: ignore[attr-defined]
+        ctx.distinct((w.kind, "claim-with-a-failed-lock", tuple(run.choices)))
+        rep = {"scenario": "claim-with-a-failed-lock", "backend": w.kind, "schedule": run.choices, "outcomes": sorted(out.items()), "final": final, "lock_faults": fired}
+        if run.aborted or any(e is not None for e in run.errors):
+            ctx.report(f"lin-error[{w.kind}]:claim-with-a-failed-lock", f"[{w.kind}] thread raised {run.errors} / aborted={run.aborted}", rep)
+            continue
+        # requests that failed with the lock error were not made
+        made = [[op for k, op in enumerate(ops) if not out.get((t, k), "").startswith("err other:OperationalError")] for t, ops in enumerate(tops)]
+        res = {}
+        for t, ops in enumerate(tops):
+            j = 0
+            for k, _ in enumerate(ops):
+                if not out.get((t, k), "").startswith("err other:OperationalError"):
+                    res[(t, j)] = out[(t, k)]
+                    j += 1
+        ok, _perm = check_linearizable(drv, start, made, res, final)
+        n_ok = sum(1 for v in out.values() if v == "ok")
+        if not ok or len(hist) - 1 != n_ok:
+            bad += 1
+            ctx.report(f"not-linearizable[{w.kind}]:claim-with-a-failed-lock",
+                       f"[{w.kind}] runners rA and rB claim one invocation; rA's BEGIN IMMEDIATE fails with 'database is locked' ({fired} fault): outcomes {sorted(out.items())}, final record "
+                       f"{final}, history {hist} - no sequential order of the requests that were made explains this (schedule {run.choices})", rep)
+    ctx.obligation(f"correspondence (a'): a request whose write lock cannot be had is made atomically or not at all ({total} schedules, {w.kind})", bad == 0, f"{bad} non-linearizable histories")
+    ctx.notes[f"failed_lock_schedules_{w.kind}"] = total
+
+
 def independent_invocations(ctx: Ctx, w: World) -> None:
     """requests on DIFFERENT invocations at the same time (a runner moving X while another claims Y and a client registers Z): each
     request is alone on its invocation, so each must simply take effect - one thread paused after each of its scheduling steps while
@@ -516,6 +594,8 @@ def run(ctx: Ctx) -> None:
             w = World(ctx, kind)
             try:
                 run_lin(ctx, w, drv)
+                if kind == "sqlite":
+                    claim_with_a_failed_lock(ctx, w, drv)
                 independent_invocations(ctx, w)
                 claims_and_a_bystander(ctx, w)
                 run_polls(ctx, w)
